@@ -131,12 +131,12 @@ def one_run(args):
 def build_variants(sd):
     def b(variant):
         lib = vlib.build_lib(sd, variant)
-        return vlib.build_bin(sd, variant, 'k10', ['k10.c'], lib)
+        return vlib.build_bin(sd, variant, 'k10', ['k10.c'], lib, extra_ld=['-Wl,--wrap=ldb_table_internal_get'])
     with ThreadPoolExecutor(2) as ex:
         ft, fa = ex.submit(b, 'tsan'), ex.submit(b, 'asan_pthread')
         return ft.result(), fa.result()
 
-SCALE = {0: 0.6, 1: 1.6, 2: 1.3, 3: 0.3, 4: 0.6, 5: 0.6}     # compaction/backup-heavy scenarios cost more per operation
+SCALE = {0: 0.6, 1: 1.6, 2: 1.3, 3: 0.3, 4: 0.6, 5: 0.6, 6: 2.0}     # compaction/backup-heavy scenarios cost more per operation
 
 def run_search(sd, exes, tier, seed):
     """runs the sanitizer workloads; returns (results, meta)."""
@@ -146,7 +146,7 @@ def run_search(sd, exes, tier, seed):
     base = os.path.join(sd, 'runs'); os.makedirs(base, exist_ok=True)
     for i in range(n_t + n_a):
         variant = 'tsan' if i < n_t else 'asan_pthread'
-        scenario = i % 6
+        scenario = i % 7
         nthreads = rng.choice([4, 6, 8])
         n = int(nops * SCALE[scenario] * (2 if variant != 'tsan' else 1))
         jobs.append((exes[0] if variant == 'tsan' else exes[1], variant, base, i, rng.below(1 << 30), scenario, nthreads,
@@ -242,7 +242,7 @@ def replay(rep, path):
     if obj.get('kind', '').startswith('sanitizer-'):
         variant = obj['variant']
         lib = vlib.build_lib(sd, variant)
-        exe = vlib.build_bin(sd, variant, 'k10', ['k10.c'], lib)
+        exe = vlib.build_bin(sd, variant, 'k10', ['k10.c'], lib, extra_ld=['-Wl,--wrap=ldb_table_internal_get'])
         for attempt in range(12):
             r = one_run((exe, variant, sd, attempt, obj['seed'], obj['scenario'], obj['nthreads'], obj['nops'], 900))
             reports = parse_tsan(r['err']) if variant == 'tsan' else parse_asan(r['err'])
